@@ -98,6 +98,7 @@ let parse_op (w : string) : Prog.op =
              | [ch; slot] -> Prog.PDropTx (nat_of_int (int_of_string ch), nat_of_int (int_of_string slot))
              | _ -> failwith "bad dt")
   | "dr" -> Prog.PDropRx (num_after w 2)
+  | "ri" -> Prog.PRecvAll (num_after w 2)
   | "bw" -> Prog.PBarrier (num_after w 2)
   | "co" -> (match String.split_on_char '.' (String.sub w 2 (String.length w - 2)) with
              | [o; b] -> Prog.PCallOnce (nat_of_int (int_of_string o), nat_of_int (int_of_string b))
